@@ -100,7 +100,9 @@ func canonDump(t []any) string {
 }
 
 // fmtParse: the parser accepts src (as `grol -format` / evalOne decide it): no errors, no continuation.
-func fmtParse(src string) (prog *ast.Statements, ok bool, msg string) { return fmtParseMode(src, false) }
+func fmtParse(src string) (prog *ast.Statements, ok bool, msg string) {
+	return fmtParseMode(src, false)
+}
 
 // fmtParseMode: lineMode = the lexer of the interactive REPL (lexer.NewLineMode: the end of the text is an EOL token and
 // an incomplete text asks for a continuation) instead of the whole-file lexer.
@@ -336,6 +338,14 @@ func fmtProbe(args []string) {
 		}
 		if r.Panic != "" {
 			fmt.Printf("  PANIC %s at %s\n", r.Panic, r.PanicAt)
+		}
+		for _, fr := range fnRecords(src) { // the source defines a function: its value through Inspect / SaveGlobals
+			fr := fr
+			fmt.Printf("  FN %s: %q ok=%v same=%v again=%q %s\n", fr.Via, fr.Text, fr.Ok, fnLawGo(&fr), fr.Text2, fr.Panic)
+			if !fnLawGo(&fr) {
+				sigs, note := fnAttribute(&fr, fnLawGo)
+				fmt.Printf("    -> %v %s\n", sigs, note)
+			}
 		}
 		if r.OkN && r.DN != r.D0 {
 			a, b, path := treeDiff(any(r.T0), any(parseDump(r.DN)), "")
